@@ -165,6 +165,21 @@ check("C05", "E2 enum", "exploration",
       "2.96 M (thorough 22.2 M) programs built from expression, declaration, pattern and type templates taken from the parser's production comments: when the first parse is clean the printed text must parse cleanly to a structurally equal tree (reflective comparison ignoring loc/typ/static); a localiser names the smallest construction at fault.",
       "programs the parser re-associates differently from the intended tree are skipped and counted; the structural parenthesisation family of the printers is listed as known findings (131 signatures)")
 
+check("C09", "E2 enum", "exploration",
+      "bounded-exhaustive differential enumeration: every program of a template space is run on the bytecode VM and as the Go program emitted by the native translator (built into one dispatcher binary per worker); stdout, raised error class and exit status must agree",
+      "128 program templates (arithmetic of every numeric type, collections, strings, control flow, closures, classes, pattern matching, errors and finally) with 566 observable sub-results are compiled both ways from /repo's working tree; the translated Go source must build, and each sub-result printed by the native binary must equal the VM's; a translator panic, Go build error or differing value/error class is a violation.",
+      "native translation covers the language subset the translator accepts (rejected programs are counted, not judged); one binary per worker share with package-level renaming instead of one binary per program")
+
+check("C10", "E2 enum", "exploration",
+      "bounded-exhaustive enumeration of program shapes x recursion depths x resource configurations (stack sizes, call-stack size, thread pools, symbol table size), each compared with the same program's outcome at the default configuration",
+      "Program shapes that keep pointers into the value stack across growth (open upvalues, closures per recursion level, generators resumed across growth, async fan-out) x depths {1,10,100,1000} x initial/maximum value-stack ladders, call-stack limits, pool (n,q) grids and symbol-table initial sizes are run in child processes; a configuration may only change the outcome to the documented exhaustion error, never the printed values, and never crash the host.",
+      "exhaustion is recognised by the VM's two panic messages; the region where the initial size is below the headroom the VM guarantees is reported under one separate signature")
+
+check("C29", "E4 bcverify", "model_checking",
+      "explicit-state exploration of an abstract machine over the compiler's real bytecode (states = (function, pc, abstract operand stack); all control-flow edges incl. catch entries and finally dispatch) + conformance replay: VM depth probe injected by build overlay compares observed (function, pc, sp-fp) with the model",
+      "Every BytecodeFunction reachable from 710 generated programs (each compiled with and without abort checks) is decoded with operand widths taken from the VM source, explored over all edges as abstract states (2.9 M states quick) checking: no underflow, one operand depth per pc outside finally sections, jump targets on instruction boundaries, catch entries consistent, max depth below the declared frame need; the depths the real VM reaches while running the programs are replayed against the model.",
+      "stack-effect table is hand-written and trusted only where the probe confirms it; opcodes never reached are listed in the evidence")
+
 NOT_YET = "check not built yet in this round (planned, see DESIGN.md section 5)"
 NA = {}
 
